@@ -18,7 +18,7 @@ import sys
 from concurrent.futures import ThreadPoolExecutor
 
 SEEDOUT = sys.argv[1] if len(sys.argv) > 1 else '/tmp/seedout'
-DEST = '/verif/seeded'
+DEST = os.environ.get('SEED_DEST', '/verif/seeded')
 PY = '/venv/bin/python'
 PROPS = [f'C{i:02d}' for i in range(1, 21)]
 
@@ -66,7 +66,7 @@ def verify(item):
     flagged = {}
 
     def run_check(p):
-        r = subprocess.run([PY, '/verif/sa/check.py', p, '--repo', wt, '--no-evidence', '--quiet'], capture_output=True, text=True)
+        r = subprocess.run([PY, os.environ.get('CHECK_PY', '/verif/sa/check.py'), p, '--repo', wt, '--no-evidence', '--quiet'], capture_output=True, text=True)
         rules = sorted(set(re.findall(r'^  (C\d\d\.R\d+)', r.stdout, re.M)))
         return p, r.returncode, rules
 
@@ -124,7 +124,7 @@ def main():
                 print(res['seed'], res['status'], 'own-check:', own, 'others:', sorted(set(res.get('checks_flagging', {})) - {res['property']}), flush=True)
                 if res['status'] == 'verified':
                     pid, k = res['seed'].split('/')
-                    dst = os.path.join(DEST, f'{pid}-{k}')
+                    dst = os.path.join(DEST, f'{pid}-{k}' + os.environ.get('SEED_SUFFIX', ''))
                     os.makedirs(dst, exist_ok=True)
                     with open(os.path.join(dst, 'patch.diff'), 'w') as fh:
                         fh.write(res.pop('_patch_text'))
@@ -160,7 +160,7 @@ def main():
         for w in wts:
             sh(f'git -C /repo worktree remove --force {w}')
         sh('git -C /repo worktree prune')
-    with open('/tmp/verify_seeds_results.json', 'w') as fh:
+    with open(os.environ.get('SEED_RESULTS', '/tmp/verify_seeds_results.json'), 'w') as fh:
         json.dump(results, fh, indent=1)
     v = [r for r in results if r['status'] == 'verified']
     print(f'{len(v)}/{len(results)} verified;', sum(1 for r in v if r['property'] in r['checks_flagging'] and r['checks_flagging'][r['property']]['exit'] == 1), 'caught by own property check;', sum(1 for r in v if any(c['exit'] == 1 for c in r['checks_flagging'].values())), 'caught by some check')
